@@ -226,6 +226,7 @@ struct Driver<'m> {
     bound: usize,
     shared: Option<Rc<ReadShared>>,
     sticky_hard: bool,
+    preset_default: bool,
     mon: &'m mut Mon,
     what: &'static str,
 }
@@ -254,7 +255,14 @@ impl<'m> Driver<'m> {
             }
             beat();
             let fired_before = self.shared.as_ref().map(|s| s.n_fired()).unwrap_or(0);
+            // every other step goes through the deprecated alias of the method
+            // (`parse`, `parse_value`, `end`), which must behave identically
+            let alias = n % 2 == 0;
+            #[allow(deprecated)]
             let r: Result<lexpr::parse::Result<Option<Value>>, Abnormal> = match op {
+                Op::NextValue if alias => guarded(|| parser.parse()),
+                Op::ExpectValue if alias => guarded(|| parser.parse_value().map(Some)),
+                Op::ExpectEnd if alias => guarded(|| parser.end().map(|()| None)),
                 Op::NextValue => guarded(|| parser.next_value()),
                 Op::NextDatum => guarded(|| parser.next_datum().map(|o| o.map(Value::from))),
                 Op::ExpectValue => guarded(|| parser.expect_value().map(Some)),
@@ -325,7 +333,19 @@ impl<'m> WithReader for StreamDrive<'m> {
     type Out = HistRun;
     fn call<R: io::Read>(self, reader: R) -> HistRun {
         let opts = self.0.opts;
-        self.0.drive(Parser::from_reader_custom(reader, opts))
+        // the preset constructors for the preset option set; `Parser::new` and
+        // `Parser::with_options` over the reader type the others wrap
+        if self.0.preset_default {
+            if self.0.input.len() % 2 == 0 {
+                self.0.drive(Parser::from_reader(reader))
+            } else {
+                self.0.drive(Parser::new(lexpr::parse::IoRead::new(reader)))
+            }
+        } else if self.0.input.len() % 2 == 0 {
+            self.0.drive(Parser::from_reader_custom(reader, opts))
+        } else {
+            self.0.drive(Parser::with_options(lexpr::parse::IoRead::new(reader), opts))
+        }
     }
 }
 
@@ -340,17 +360,17 @@ pub fn exec(opts_ix: u32, source: &Source, input: &[u8], ops: &[Op], then_drain:
     match source {
         Source::Str if std::str::from_utf8(input).is_ok() => {
             let s = std::str::from_utf8(input).unwrap();
-            Driver { opts, input, ops, then_drain, bound, shared: None, sticky_hard: false, mon, what: "str source" }.drive(Parser::from_str_custom(s, opts))
+            Driver { opts, input, ops, then_drain, bound, shared: None, sticky_hard: false, preset_default: opts_ix == opts::PARSE_DEFAULT, mon, what: "str source" }.drive(if opts_ix == opts::PARSE_DEFAULT { Parser::from_str(s) } else { Parser::from_str_custom(s, opts) })
         }
         Source::Str | Source::Slice => {
-            Driver { opts, input, ops, then_drain, bound, shared: None, sticky_hard: false, mon, what: "slice source" }.drive(Parser::from_slice_custom(input, opts))
+            Driver { opts, input, ops, then_drain, bound, shared: None, sticky_hard: false, preset_default: opts_ix == opts::PARSE_DEFAULT, mon, what: "slice source" }.drive(if opts_ix == opts::PARSE_DEFAULT { Parser::from_slice(input) } else { Parser::from_slice_custom(input, opts) })
         }
         Source::Stream(plan) => {
             let mut sim = SimReader::new(input, plan);
             let shared = sim.shared.clone();
             shared.trace.set(mon.keep_log);
             let sticky_hard = plan.faults.iter().any(|f| f.sticky && matches!(f.kind, ReadFaultKind::Hard(_)));
-            let d = Driver { opts, input, ops, then_drain, bound, shared: Some(shared.clone()), sticky_hard, mon, what: "stream source" };
+            let d = Driver { opts, input, ops, then_drain, bound, shared: Some(shared.clone()), sticky_hard, preset_default: opts_ix == opts::PARSE_DEFAULT, mon, what: "stream source" };
             let run = with_adapter(input, plan, &mut sim, StreamDrive(d));
             mon.steps += shared.calls.get();
             mon.add("read.interrupts_fired", shared.interrupts_fired.get());
